@@ -152,3 +152,7 @@ add('RET', Rule('X-RET', 'BlockRet::WaitForStream(&self.$f:i, $n:e)', 'BlockRet:
 add('TAGFILTER',
     Rule('X-TAGFILTER', '$ts:i.into_iter().filter(|t| t.pos() < $n:e).collect()', 'filter_tags_before($ts, $n)'),
     Rule('X-TAGFILTER', '$ts:i.iter().filter(|t| t.pos() < $n:e).cloned().collect()', 'filter_tags_before_ref(&$ts, $n)'))
+
+# X-SUBSLICE: Vec indexed by a range
+add('SUBSLICE', Rule('X-SUBSLICE', '&$v:p[$a:e..($b:e)]', 'subslice(&$v, $a, $b)'),
+    Rule('X-SUBSLICE', '&$v:p[$a:e..$b:e]', 'subslice(&$v, $a, $b)'))
